@@ -87,17 +87,19 @@ fn cursor_case(n: usize) {
 	std::mem::forget(o); std::mem::forget(lk);
 }
 
-crate::verif_env! {
-#[kani::proof]
-#[kani::unwind(8)]
-fn c04_b4_overlay_cursor() {
-	let n: usize = kani::any();
-	kani::assume(n <= 3);
-	let mut c = 0;
-	while c <= 3 { if c == n { cursor_case(c); } c += 1; }
+macro_rules! c04_b4 {
+	($name:ident, $n:expr) => {
+		crate::verif_env! {
+			#[kani::proof]
+			#[kani::unwind(8)]
+			fn $name() { cursor_case($n) }
+		}
+	};
 }
-}
-
+c04_b4!(c04_b4_overlay_cursor_n0, 0);
+c04_b4!(c04_b4_overlay_cursor_n1, 1);
+c04_b4!(c04_b4_overlay_cursor_n2, 2);
+c04_b4!(c04_b4_overlay_cursor_n3, 3);
 
 // =====================================================================================
 // C13.P3: DbInner::enact_logs(validation_mode = true) on arbitrary log bytes (database without columns:
